@@ -229,6 +229,7 @@ func (p *peer) Dial(addr string, protoFunc ...ProtoFunc) (Session, *Status) {
 
 			_, err := p.dialer.dialWithRetry(addr, oldID, func(conn net.Conn) error {
 				sess.socket.Reset(conn, protoFunc...)
+				verifGate("redialfn.afterReset", sess)
 				if oldIP == oldID {
 					sess.socket.SetID(sess.LocalAddr().String())
 				} else {
@@ -240,6 +241,7 @@ func (p *peer) Dial(addr string, protoFunc ...ProtoFunc) (Session, *Status) {
 					sess.changeStatus(statusRedialing)
 					return stat.Cause()
 				}
+				verifGate("redialfn.afterPostDial", sess)
 				return nil
 			})
 
@@ -253,6 +255,7 @@ func (p *peer) Dial(addr string, protoFunc ...ProtoFunc) (Session, *Status) {
 			if oldConn != nil {
 				oldConn.Close()
 			}
+			verifGate("redialfn.beforeOk", sess)
 			sess.changeStatus(statusOk)
 			AnywayGo(sess.startReadAndHandle)
 			p.sessHub.set(sess)
@@ -434,6 +437,7 @@ func (p *peer) getContext(s *session, withWg bool) *handlerCtx {
 		s.graceCtxWaitGroup.Add(1)
 	}
 	ctx := ctxPool.Get().(*handlerCtx)
+	verifGate("ctx.get", s)
 	ctx.clean()
 	ctx.reInit(s)
 	return ctx
@@ -444,6 +448,7 @@ func (p *peer) putContext(ctx *handlerCtx, withWg bool) {
 		// count get context
 		ctx.sess.graceCtxWaitGroup.Done()
 	}
+	verifGate("ctx.put", ctx.sess)
 	ctxPool.Put(ctx)
 }
 
